@@ -1,6 +1,89 @@
-"""Additional generated-input stages for the document-level properties (Hypothesis structured
-documents, C01 scaling families).  Filled in per property."""
+"""Additional generated-input stages for the document-level properties:
+ * C01 scaling families (work grows at most cubically; work <= envelope)
+ * Hypothesis structured documents, shallow profile (all five properties)"""
+import math
+
+from .. import docprops, pool
+
+FAMILIES = {
+    "emph-open": lambda n: "*a " * n,
+    "emph-nest": lambda n: "*" * n + "a" + "*" * n,
+    "emph-mixed": lambda n: "*a_ " * n,
+    "bracket-open": lambda n: "[" * n,
+    "bracket-pairs": lambda n: "[a]" * n,
+    "inline-links": lambda n: "[a](b) " * n,
+    "link-nest": lambda n: "[" * n + "a" + "](b)" * n,
+    "backtick-runs": lambda n: " ".join("`" * k for k in range(1, min(n, 60) + 1)) + " x" * max(0, n - 60),
+    "code-spans": lambda n: "`a` " * n,
+    "quote-deep": lambda n: ">" * n + " a",
+    "quote-lines": lambda n: "> a\n" * n,
+    "list-deep": lambda n: "".join(" " * (2 * i) + "- a\n" for i in range(min(n, 120))),
+    "list-items": lambda n: "- a\n" * n,
+    "olist-items": lambda n: "".join(f"{i}. a\n" for i in range(1, n + 1)),
+    "link-defs": lambda n: "".join(f"[l{i}]: /u{i}\n" for i in range(n)) + "\n[l0]\n",
+    "link-def-uses": lambda n: "[l]: /u\n\n" + "[l] " * n,
+    "headings": lambda n: "# h\n\n" * n,
+    "setext": lambda n: "h\n===\n\n" * n,
+    "fence-lines": lambda n: "```\n" + "x\n" * n + "```\n",
+    "indented-lines": lambda n: "    x\n" * n,
+    "html-open": lambda n: "<a " * n,
+    "raw-html": lambda n: "<a> " * n,
+    "entities": lambda n: "&amp;" * n,
+    "escapes": lambda n: "\\*" * n,
+    "backslashes": lambda n: "\\" * n,
+    "para-lines": lambda n: "a b\n" * n,
+    "hard-breaks": lambda n: "a  \n" * n + "b",
+    "blank-lines": lambda n: "\n" * n,
+    "autolinks": lambda n: "<http://a.b> " * n,
+    "images": lambda n: "![a](b) " * n,
+    "tabs": lambda n: "\ta\tb\n" * n,
+    "thematic": lambda n: "---\n\n" * n,
+    "long-line": lambda n: "a" * (n * 8),
+    "paragraph-then-defs": lambda n: "p\n" + "".join(f"[l{i}]: /u\n" for i in range(n)),
+}
+SIZES = [8, 16, 32, 64, 128, 256]
+SIZES_THOROUGH = SIZES + [512]
+
+
+def family_job(payload):
+    name, sizes = payload
+    out = []
+    for n in sizes:
+        src = FAMILIES[name](n)
+        toks, sig, work = docprops.guarded_parse(src, count_work=True)
+        out.append((n, len(src), sig, work))
+    return name, out
+
+
+def c01_families(run, tier):
+    sizes = SIZES_THOROUGH if tier == "thorough" else SIZES
+    jobs = [(name, sizes) for name in sorted(FAMILIES)]
+    table = {}
+    for name, rows in pool.run_jobs("vp.props.docs_extra:family_job", jobs):
+        table[name] = rows
+        run.evaluations += len(rows)
+        prev = None
+        for n, ln, sig, work in rows:
+            run.nontrivial(f"family:{name}:{n}")
+            problem = None
+            if sig:
+                problem = f"family:{name}|{sig}"
+            elif prev and prev[1] >= 64 and prev[3] > 2000 and work > 0:
+                growth = math.log2(work / prev[3]) / max(math.log2(ln / prev[2]), 1e-9) if ln > prev[2] else 0
+                if growth > 3.0:
+                    problem = f"family:{name}|super-cubic-growth"
+            if problem:
+                key = f"{problem}|n={n}"
+                if not run.known.match_case(key) and not run.known.match_case(problem):
+                    run.violation(problem, {"kind": "doc", "family": name, "n": n, "src": FAMILIES[name](n), "src_expr": f"FAMILIES[{name!r}]({n})", "work": work, "len": ln})
+            prev = (n, n, ln, work) if not sig else prev
+    run.extra["scaling_families"] = {k: [(n, ln, work) for n, ln, sig, work in v] for k, v in table.items()}
+    run.add_sample({"family": "inline-links", "n": 16, "src": FAMILIES["inline-links"](16)})
 
 
 def extra(run, prop, tier, seed):
-    return
+    if prop == "C01":
+        c01_families(run, tier)
+    from . import docs_hyp
+
+    docs_hyp.stage(run, prop, tier, seed)
